@@ -180,6 +180,8 @@ def v2Tax (fc : Fc2) : VM Cur := do
   let s ← addC fc.renter.value fc.host.value
   pure (s / 25)
 
+def siafundCount : Nat := 10000
+
 -- ---------------------------------------------------------------- MidState
 
 structure ScDiff where
@@ -440,6 +442,7 @@ structure Block where
   headerOk : Bool                           -- ValidateHeader verdict (C13)
   blockId : Id
   maxWeight : Nat
+  suppLenOk : Bool := true                  -- len(bs.Transactions) == len(b.Transactions)
 deriving Repr, DecidableEq, Inhabited
 
 -- ---------------------------------------------------------------- element lookups (state.go)
@@ -528,7 +531,8 @@ def validateSiacoins (ms : Mid) (t : Txn1) : VM Unit := do
         else addC sum p.value) 0
   let o1 ← t.scOuts.foldlM (fun s o => addC s o.2.value) 0
   let o2 ← t.fcs.foldlM (fun s f => addC s f.2.payout) o1
-  let outputSum ← t.fees.foldlM (fun s f => addC s f) o2
+  -- miner fees are not covered by `validateCurrencyOverflow`: checked addition, overflow rejects
+  let outputSum ← t.fees.foldlM (fun (s : Cur) f => if s + f < curLimit then pure (s + f) else reject "transaction outputs exceed inputs") o2
   if inputSum ≠ outputSum then reject "siacoin inputs do not equal outputs" else pure ()
 
 def validateSiafunds (ms : Mid) (t : Txn1) : VM Unit := do
@@ -615,8 +619,6 @@ def validateTransaction (ms : Mid) (t : Txn1) (parentBlockId : Id) (maxWeight : 
   validateSignatures t
 
 -- ---------------------------------------------------------------- v1 application
-
-def siafundCount : Nat := 10000
 
 def claimPortion (pool claimStart : Cur) (value : Nat) : VM Cur := do
   let d ← subC pool claimStart
@@ -708,7 +710,8 @@ def validateV2Siacoins (ms : Mid) (t : Txn2) : VM Unit := do
       if ¬ sci.addrOk then reject "claims incorrect policy for parent address"
       else if ¬ sci.authOk then reject "failed to satisfy spend policy"
       else pure (sci.parent.id :: seen)) []
-  let inputSum0 ← t.scIns.foldlM (fun s sci => addC s sci.parent.value) 0
+  -- checked: below the ephemeral fix height claimed ephemeral values are not bounded by the supply
+  let inputSum0 ← t.scIns.foldlM (fun (s : Cur) sci => if s + sci.parent.value < curLimit then pure (s + sci.parent.value) else reject "siacoin inputs overflow") 0
   let outputSum0 ← t.scOuts.foldlM (fun (s : Cur) o => if o.2.value = 0 then reject "siacoin output has zero value" else addC s o.2.value) 0
   let outputSum1 ← t.fcs.foldlM (fun s (_, fc, _) => do
     let a ← addC s fc.renter.value
@@ -734,6 +737,9 @@ def validateEphemeralSf (ms : Mid) (sfi : SfIn2) : VM Unit :=
   | some j =>
     if j ≥ ms.sfes.length ∨ ¬ (ms.sfes.getD j default).created then reject "spends nonexistent ephemeral output"
     else if ms.base.child ≥ ms.base.P.ephemeralFix then reject "spends ephemeral output"
+    -- legacy window: the claimed record is unchecked, but its claim must be computable
+    else if sfi.parent.claimStart > ms.pool then reject "claims invalid claim start for ephemeral output"
+    else if (ms.pool - sfi.parent.claimStart) / siafundCount * sfi.parent.value ≥ curLimit then reject "claims invalid value for ephemeral output"
     else pure ()
 
 def validateV2Siafunds (ms : Mid) (t : Txn2) : VM Unit := do
@@ -924,6 +930,7 @@ def validateOrphan (L : Ledger) (b : Block) : VM Unit := do
 def validateSupplement (L : Ledger) (b : Block) : VM Unit := do
   if L.child ≥ L.P.v2Require ∧ (b.txns1.length ≠ 0 ∨ b.expiring.length ≠ 0) then
     reject "v1 block supplements are not allowed after v2 hardfork is complete"
+  if ¬ b.suppLenOk then reject "incorrect number of transactions"
   for t in b.txns1 do
     if ¬ t.supp.scIns.all L.hasSc then reject "siacoin element is not present in the accumulator"
     if ¬ t.supp.sfIns.all L.hasSf then reject "siafund element is not present in the accumulator"
